@@ -11,6 +11,30 @@ CHECKS = {
     design_ref="DESIGN.md §4 C08",
     note="Trusted: the generator's own bookkeeping of byte offsets; swc as the parser on the implementation side only.",
   ),
+  "C09": dict(
+    technique="property-based testing (proptest) with a TypeScript package generator and validity predicates on the re-parsed output (scope analysis), plus the same predicates over the repository's fast-check spec corpus",
+    text="Generated registry packages (declarations of every kind, private/exported, reference chains across declarations, namespaces and files, type/value collisions, qualified names, import types, re-exports, star exports) run through build + build_fast_check_type_graph. Oracles on each emitted module: parses under the source's media type; every identifier that resolved to a module-level binding in the original and is unresolved in the output is a violation; every import / re-export names an export of the emitted counterpart; every relative specifier resolves to a graph module; the source map decodes, every token maps inside the original text, and each identifier token maps onto the same identifier text. Corpus layer: the same predicates over every package of tests/specs/graph/fast_check. Exploration only.",
+    design_ref="DESIGN.md §4 C09",
+    note="Trusted: deno_ast/swc parser and scope analysis on the observing side; the sourcemap decoder (engine/src/props/c09.rs, hand written VLQ). One known finding (private member of an ambient class) is keyed by signature.",
+  ),
+  "C10": dict(
+    technique="property-based testing (proptest) with a grammar over emitted ASTs: every node of every emitted module must be derivable from the 'declaration-only, explicitly typed' grammar, else a diagnostic must exist; generated packages plus the spec corpus",
+    text="Generated packages whose public API mixes annotated, inferable and non-inferable declarations over every declaration and member kind (functions, overloads, arrow/fn initialisers, classes with ctor/param props/accessors/private/#private/decorators, enums, namespaces, default exports, destructuring). Oracle: visitor over the emitted AST accepting only empty or single-placeholder bodies, declarations at statement level, literal-like or fully annotated function initialisers, explicit parameter and return types, `any`-typed TS-private members, no #private, no decorators; a package without output must carry diagnostics on every entrypoint. Exploration only.",
+    design_ref="DESIGN.md §4 C10",
+    note="Trusted: swc parser on the observing side; the grammar (engine/src/props/c10.rs) is the property statement transcribed.",
+  ),
+  "C11": dict(
+    technique="property-based metamorphic testing (proptest): the recording TypeScript generator knows the intended public API; emitted vs original export sets, declaration kinds and span-insensitive signature projections are compared; generated packages plus the spec corpus",
+    text="Oracles: entrypoints export exactly the original names (incl. default and resolved star re-exports), other modules a subset; each retained exported declaration keeps its kind; type annotations, type parameters, heritage clauses and public member signatures equal the source's under span-insensitive comparison modulo the optional/default-parameter normalisation; declarations the generator recorded as neither exported nor referenced from the public API are absent. Exploration only.",
+    design_ref="DESIGN.md §4 C11",
+    note="Trusted: the generator's record of exported / referenced declarations (engine/src/tsgen.rs), swc EqIgnoreSpan.",
+  ),
+  "C12": dict(
+    technique="stateful property-based testing (proptest): generated histories of (build, fast check with shared cache, edit a source, rebuild) compared step by step against cache-less runs and repeated runs",
+    text="Generated worlds of 1-2 registry packages (optionally one star re-exporting the other, several entrypoints, passing and failing), histories of 3-7 steps with edits toggling annotation / export / kind of one declaration. After every fast-check step: all-or-nothing per package (all public modules emitted and no entrypoint diagnostic, or none emitted and every entrypoint carries diagnostics); recorded dependencies equal those declared by the emitted text; cached (cold / warm / stale) output equals cache-less output on emitted set, text, dependencies, source maps and diagnostic placement; two runs identical. Exploration only.",
+    design_ref="DESIGN.md §4 C12",
+    note="Trusted: the in-memory FastCheckCache of the harness (engine/src/fc.rs MemCache stores what it is given, keyed as requested).",
+  ),
   "C13": dict(
     technique="property-based round-trip and differential testing (proptest): ModuleInfo -> JSON -> ModuleInfo on analyser-produced values; moduleGraph1 rendering upgraded vs the moduleGraph2 original; registry built from embedded module info vs from parsing",
     text="(a) every ModuleInfo the analyser produces from generated programs round-trips through its JSON form (equality and fixed point); (b) the legacy rendering of the same value (types specifier replaced by the leading comment) upgrades to the same @deno-types text and range; (c) generated registries published with moduleGraph2 computed by this analyser vs without, with a cache image deciding cached/uncached content per file, under all graph kinds: equal serialised graph, source texts and errors. Exploration only.",
